@@ -97,10 +97,9 @@ def _all_shards(tier, seed):
     T = tier == "thorough"
     for name in HDF5_CLASSES:
         if T:
-            for first in range(len(GROUPS)):
-                out.append(("hdf5", name, first))            # depth 4, 4-profile pool, histories starting at GROUPS[first]
-            if len(P.profiles(name, "wide")) > len(P.profiles(name, "quick")):
-                out.append(("hdf5", name, "d3"))             # depth 3, 5-profile pool
+            out.append(("hdf5", name, "d4"))                 # depth 4, 3-profile pool (rich / bare / partial)
+            out.append(("hdf5", name, "d3"))                 # depth 3, 5-profile pool
+            if len(P.profiles(name, "wide")) > len(P.profiles(name, "thorough")):
                 out.append(("hdf5", name, "wide2"))          # depth 2, 6-profile pool
         else:
             out.append(("hdf5", name, None))                 # depth 3, 4-profile pool
@@ -405,15 +404,16 @@ class H5Explorer:
 
 
 def run_hdf5(ctx, sc, name, first_group):
-    depth = 4 if ctx.tier == "thorough" else 3
-    ptier = "quick"
+    depth, ptier = 3, "quick"
     if first_group == "wide2":
         depth, ptier, first_group = 2, "wide", None
     elif first_group == "d3":
         depth, ptier, first_group = 3, "thorough", None
+    elif first_group == "d4":
+        depth, ptier, first_group = 4, "core3", None
     ctx.bounds.update({"hdf5_history_depth": 4 if ctx.tier == "thorough" else 3, "hdf5_groupnames": [repr(g) for g in group_names(ctx.seed)],
-                       "hdf5_pool_profiles": "rich / labels / bare / partial (quick: depth 3; thorough: depth 4); thorough adds "
-                                             "rich-small at depth 3 and partial2 (later optional fields only) at depth 2; models: 5 parameter "
+                       "hdf5_pool_profiles": "quick: rich / labels / bare / partial at depth 3; thorough: rich / bare / partial at "
+                                             "depth 4, + labels, rich-small at depth 3, + partial2 (later optional fields only) at depth 2; models: 5 parameter "
                                              "profiles; G_E_Phenotyping: 4; unlabelled matrices: 3-4 value/shape/dtype variants",
                        "n_taxa": "2-3", "n_variants": "3-4", "n_traits": "1-2"})
     ex = H5Explorer(ctx, sc, name, ptier, ctx.seed)
@@ -564,6 +564,9 @@ def table_case(ctx, sc, name, prof, cid, form, seed):
         ctx.traces += 1
     ctx.state(digest(("table", name, prof["id"], cid, form)))
     ctx.nontriv(digest(("table", name, prof["id"], cid, form)))
+    if ok and name == "DenseBreedingValueMatrix" and prof["id"] == "rich" and cid == "custom-label-cols" and form == "csv":
+        with open(sc.path("tab–ü.csv"), encoding="utf8") as f:
+            ctx.sample(dict(case, write_options=repr(w), read_options=repr(r), csv_text=f.read()))
     ctx.flag(f"table:{P.CLASSES[name]['pandas']}:{cid}")
     ctx.flag(f"table-form:{form}")
     ctx.count("table-cases")
@@ -760,6 +763,8 @@ def copy_case(ctx, name, prof, how, seed):
                         ok = False
                     v[kk] = old
     ctx.count("copy-mutations", nmut)
+    if name_ == "DenseMatrix" and prof["id"] == "a" and how == "copy.deepcopy":
+        ctx.sample(dict(case, mutated_leaves=sorted(lc), single_cell_mutations=nmut))
     ctx.state(digest(("copy", name_, prof["id"], how)))
     if nmut:
         ctx.nontriv(digest(("copy", name_, prof["id"], how)))
@@ -820,9 +825,9 @@ def _vcf_shards(tier):
         add(ns, nr, "full", 1)
     add(2, 2, "full", 8 if T else 4)
     if T:
-        add(3, 2, "full", 48)
+        add(3, 2, "full", 32)
         add(2, 3, "sub12", 16)
-        add(3, 3, "rot", 96)
+        add(3, 3, "rot", 64)
     else:
         add(3, 2, "rot", 4)
         add(2, 3, "rot", 4)
@@ -987,7 +992,7 @@ def vcf_case(ctx, sc, seed, ns, nr, ci, li):
     if allok:
         ctx.traces += 1
     ctx.count("vcf-files")
-    if ctx.evaluations == 37:
+    if ctx.evaluations == 37 and (ns, nr) in ((2, 2), (3, 3)) and ci < 4 ** (ns * nr) // 8:
         ctx.sample(dict(case, text=text))
 
 
